@@ -180,6 +180,9 @@ func c21Plan(rng *core.Rng) *harness.Plan {
 
 func c21Gen(rng *core.Rng, tier string) *harness.Plan {
 	if rng.Chance(0.5) {
+		if rng.Chance(0.3) {
+			return c21LateOldPlan(rng.Uint64(), []int{0, 2, 3}[rng.IntN(3)])
+		}
 		return c21MemPlan(rng.Uint64(), rng.IntN(len(c21Classes)), int64(1+rng.IntN(3)), int64(rng.IntN(6)), []int64{0, 0, 0, 130}[rng.IntN(4)])
 	}
 	p := c21Plan(rng)
